@@ -101,6 +101,29 @@ def gen_history(rng, n):
     return items
 
 
+def long_history(rng):
+    ''' The seen-identity memory must not forget: two bundles, then some 300 bundles with other new
+    identities (more than any plausible bounded cache), then the first two again (same octets). '''
+    act = rng.choice(['deliver', 'forward'])
+    flags = rng.choice([0, A.F_DLV | A.F_FWD | A.F_RCV])
+    items = []
+    now = A.T0 + 10
+
+    def add(src, t, seq):
+        b = {'pri': A.mk_pri(A.dtn('//a/x'), src, [t, seq], flags=flags, rpt=RPT), 'rpt_none': False,
+             'blocks': [A.mk_blk(1, 1, bytes([seq & 0xff, t & 0xff]))]}
+        items.append({'b': b, 'data': A.enc_bundle(b), 'now': now + len(items), 'crc_ok': True})
+
+    add(SOURCES[0], A.T0 - 7, 0)
+    add(SOURCES[1], A.T0 - 7, 1)
+    for i in range(rng.randrange(270, 330)):
+        add(SOURCES[i % 3], A.T0 - 6 + i // 50, 10 + i)
+    first = items[0], items[1]
+    for it in first:
+        items.append(dict(it, now=now + len(items)))
+    return {'rx': [(r'.*', act)], 'tx': [(r'.*', None)], 'items': items}
+
+
 def reasm_builder(items, ix):
     ''' structure of the bundle `Fragment._reassemble` re-injects: first fragment, flag cleared '''
     cur = items[ix]['b']['pri']
@@ -254,7 +277,8 @@ def check_batch(chk, batch):
 
 def run(chk):
     chk.prove('DtnVerif.Props.C10')
-    chk.cov['rule'] = ('histories of 1..12 received bundles (fresh / exact repeats / look-alikes differing in one '
+    chk.cov['rule'] = ('one long history per run (two bundles, ~300 other identities, the two again); '
+                       'histories of 1..12 received bundles (fresh / exact repeats / look-alikes differing in one '
                        'identity component / fragments incl. complete sets that reassemble / own-source / bad CRC) '
                        'x random receive tables of 0..4 routes over a 12-pattern regex family; every history is '
                        'run through the real Agent (idle sources drained FIFO) and through the Lean model; '
@@ -276,6 +300,11 @@ def run(chk):
                 'items': [dict(it, data=bytes.fromhex(it['data'])) for it in r['items']]}
         fix, events, obs = run_case(chk, case)
         batch.append((case, events, obs, fix.seen()))
+    for _ in range(1 if chk.tier == 'quick' else 6):
+        case = long_history(rng)
+        fix, events, obs = run_case(chk, case)
+        batch.append((case, events, obs, fix.seen()))
+        chk.count('long-history')
     for i in range(n_cases):
         n = rng.choice([1, 2, 3, 4, 6, 8, 12]) if i % 7 else 12
         tx = [('.*', None)] if rng.random() < 0.85 else [(r'dtn://a/.*', None), (r'dtn://rpt/.*', None)]
